@@ -74,33 +74,33 @@ enum Op : unsigned {
 constexpr OpInfo info(Op op)
 {
     switch (op) {
-    case oEmplace: return {"emplace(args)", aV};
-    case oEmplaceDefault: return {"emplace()", 0};
-    case oReset: return {"reset()", 0};
-    case oAssignNullopt: return {"operator=(nullopt)", 0};
-    case oAssignBraces: return {"operator=({})", 0};
-    case oAssignTconst: return {"operator=(T const&)", aV};
-    case oAssignTrv: return {"operator=(T&&)", aV};
-    case oAssignUlv: return {"operator=(U&) converting", aV};
-    case oAssignUrv: return {"operator=(U&&) converting", aV};
-    case oAssignOptConst: return {"operator=(optional const&)", aY};
-    case oAssignOptRv: return {"operator=(optional&&)", aY};
-    case oAssignOptUConst: return {"operator=(optional<U> const&)", aY};
-    case oAssignOptURv: return {"operator=(optional<U>&&)", aY};
-    case oSelfCopyAssign: return {"operator=(self const&)", 0};
-    case oSwapMember: return {"swap(other)", aY};
-    case oSwapAdl: return {"swap(a,b)", aY};
-    case oSwapSelf: return {"swap(self)", 0};
+    case oEmplace: return {"emplace(args)", aV | aM};
+    case oEmplaceDefault: return {"emplace()", aM};
+    case oReset: return {"reset()", aM};
+    case oAssignNullopt: return {"operator=(nullopt)", aM};
+    case oAssignBraces: return {"operator=({})", aM};
+    case oAssignTconst: return {"operator=(T const&)", aV | aM};
+    case oAssignTrv: return {"operator=(T&&)", aV | aM};
+    case oAssignUlv: return {"operator=(U&) converting", aV | aM};
+    case oAssignUrv: return {"operator=(U&&) converting", aV | aM};
+    case oAssignOptConst: return {"operator=(optional const&)", aY | aM};
+    case oAssignOptRv: return {"operator=(optional&&)", aY | aM};
+    case oAssignOptUConst: return {"operator=(optional<U> const&)", aY | aM};
+    case oAssignOptURv: return {"operator=(optional<U>&&)", aY | aM};
+    case oSelfCopyAssign: return {"operator=(self const&)", aM};
+    case oSwapMember: return {"swap(other)", aY | aM};
+    case oSwapAdl: return {"swap(a,b)", aY | aM};
+    case oSwapSelf: return {"swap(self)", aM};
     case oCopyCtor: return {"ctor(optional const&)", 0};
-    case oMoveCtor: return {"ctor(optional&&)", 0};
+    case oMoveCtor: return {"ctor(optional&&)", aM};
     case oCtorOptUConst: return {"ctor(optional<U> const&)", aY};
     case oCtorOptURv: return {"ctor(optional<U>&&)", aY};
-    case oWideFromThis: return {"optional<long>(optional<int>) ctor+assign", 0};
+    case oWideFromThis: return {"optional<long>(optional<int>) ctor+assign", aM};
     case oValueOrConst: return {"value_or(d) const&", aV};
-    case oValueOrRv: return {"value_or(d) &&", aV};
+    case oValueOrRv: return {"value_or(d) &&", aV | aM};
     case oAndThen: return {"and_then(f)", aQ4 | aF};
     case oOrElseConst: return {"or_else(f) const&", aY};
-    case oOrElseRv: return {"or_else(f) &&", aY};
+    case oOrElseRv: return {"or_else(f) &&", aY | aM};
     case oTransform: return {"transform(f)", aQ4};
     case oValue: return {"value()", aQ4};
     case oDeref: return {"operator* / operator->", 0};
@@ -518,6 +518,10 @@ struct OptSubject {
     }
     static constexpr Table table   = make_table();
     static constexpr unsigned kOps = table.n;
+    static bool is_mutator(unsigned w) { return (info(table.ops[w]).args & aM) != 0; }
+    static constexpr Mutators<Table, OpInfo (*)(Op)> muts{table, &info};
+    static unsigned n_mutators() { return muts.n; }
+    static unsigned mutator_at(unsigned k) { return muts.idx[k]; }
 
     OptWorld<Std, T> s;
     OptWorld<Etl, T> e;
